@@ -3,7 +3,7 @@
 copy of /repo/src; /repo is never touched).  A check must answer 0 (holds) or 2 (cannot decide) -- never 1.
 Results: /verif/benign/RESULTS.json."""
 import json, os, subprocess, sys, shutil, re, glob
-ROOT = '/verif'
+ROOT = os.path.dirname(os.path.dirname(os.path.abspath(__file__)))
 sys.path.insert(0, ROOT)
 from units import REGISTRY
 only = sys.argv[1:]
